@@ -168,7 +168,9 @@ def main(argv=None) -> int:
         "seed": seed,
         "level": getattr(mod, "LEVEL", "exploration"),
         "coverage": {
-            "evaluations": total,
+            # a case may run the code under test several times (C26: one run per injected fault)
+            "evaluations": sum((res or {}).get("executions", 1) for _, res in results),
+            "cases": total,
             "distinct_nontrivial": len(keys),
             "rule": getattr(mod, "RULE", ""),
             "samples": samples,
